@@ -434,7 +434,7 @@ void Circuit::safe_insert_repeat_block(
         operations.begin() + index, CircuitInstruction(GateType::REPEAT, {}, targets, tag_buf.take_copy(tag)));
 }
 
-void Circuit::safe_append_reversed_targets(CircuitInstruction instruction, bool reverse_in_pairs) {
+void Circuit::safe_append_reversed_targets(CircuitInstruction instruction, bool reverse_in_pairs, bool block_fusion) {
     if (reverse_in_pairs) {
         if (instruction.targets.size() % 2 != 0) {
             throw std::invalid_argument("targets.size() % 2 != 0");
@@ -465,7 +465,7 @@ void Circuit::safe_append_reversed_targets(CircuitInstruction instruction, bool 
     to_add.args = arg_buf.take_copy(to_add.args);
     to_add.tag = tag_buf.take_copy(to_add.tag);
 
-    if (!operations.empty() && operations.back().can_fuse(to_add)) {
+    if (!block_fusion && !operations.empty() && operations.back().can_fuse(to_add)) {
         // Extend targets of last gate.
         fuse_data(operations.back().targets, to_add.targets, target_buf);
     } else {
@@ -982,9 +982,12 @@ Circuit Circuit::inverse(bool allow_weak_inverse) const {
         }
 
         // Add inverse operation to inverse circuit.
+        // The instruction order is reversed at the end, so fusing into the previously appended
+        // instruction would put these targets on the wrong side of it.
         result.safe_append_reversed_targets(
             CircuitInstruction(gate_data.best_candidate_inverse_id, args, op.targets, op.tag),
-            gate_data.flags & GATE_TARGETS_PAIRS);
+            gate_data.flags & GATE_TARGETS_PAIRS,
+            true);
     }
 
     // Put the qubit coordinates in the original order.
